@@ -27,4 +27,8 @@ def scenarios(ctx):
         # success may only be reported for what the peer accepted - also when the retransmission arrives behind a burst wider than the message window
         dict(name="callbacks-under-bursts", n=3 if q else 10, nticks=800 if q else 1500, heal_after=500 if q else 1100,
              policy=dict(p_cb=1.0, p_send=0.15, p_loss=0.2, retries=(-1, -1, 1), lens=[4, 20, 600, 1500], burst=0.03, burst_lens=(4, 4, 5), burst_retries=(0,), maxdelay=4), world=dict(start_seq="alt")),
+        # success may only be reported for what the peer accepted - also when somebody puts damaged or forged copies of lost datagrams in front of the peer
+        # (the header travels in clear: a copy with the genuine sequence number and a broken seal must not be acknowledged)
+        dict(name="callbacks-with-forgeries", n=3 if q else 12, nticks=700 if q else 2000, heal_after=450 if q else 1600,
+             policy=dict(p_cb=1.0, p_send=0.3, p_loss=0.3, p_forge=0.5, maxdelay=6, lens=[4, 20, 600], retries=(0, 0, 1, -1)), world=dict(start_seq="alt")),
     ]
